@@ -507,7 +507,10 @@ func checkCompromise(c *Ctx, cmp *ssa.Function) {
 		case !okS2:
 			st2, why2 = unknown, "the second share's total "+short(tot2.String())+" is not a recognised running sum"
 		case ad2.String() != w1:
-			st2, why2 = unknown, "the second share's total sums "+short(ad2.String())
+			st2, why2 = unknown, "the second share's total sums "+short(ad2.String())+"; want the matched weights of the second table"
+			if len(opaqueParts(ad2, vocabOf(w0, w1))) == 0 && localDiff(ad2, w1) {
+				st2 = broken
+			}
 		}
 	}
 	c.judge(st2, "TERM-COMP", "share2 = matching codon's w/sum (table 2, matched by letter and triplet)", avg.At.Pos(), "second share uses the second table's codon with the same letter and triplet, over the sum of the matched weights", why2)
